@@ -29,7 +29,12 @@ outcome, list items beyond a struct array's length are ignored.
 * well-formedness of string fields is a theorem about M4 (`wf_of_validated_str`, `str_assign_then_roundtrip`; this is
   where C10-F1 lived: before the fix a short string written over a long one left stale bytes, which are not well-formed
   and do not round-trip).
-* `Message.from_json` refuses exactly the non-zero foreign versions (`json_version_refused`, `json_version_accepted`).
+* `Message.from_json` refuses exactly the non-zero foreign versions (`json_version_refused`, `json_version_accepted`) -
+  and does so **before it looks at the data segment, for every class** (`msgFromJson`: header, class lookup, version
+  check, data; `foreign_version_refused_whatever_the_data`, `own_or_unset_version_reaches_the_data`,
+  `msgFromJson_meets_version_clause`).  The driver compares the real `Message.from_json` with `msgFromJson` on every class,
+  the ones without fields (signals) included, on minified and indented text and on texts whose "data" member is missing,
+  `{}` or `null` (seeded change C10h: an early return for signal classes in front of the check).
 
 Floats: values cross as IEEE bit patterns.  `double` leaves and arrays round-trip **exactly** (every finite value, -0.0,
 every NaN payload; the validators never store an infinity, which is part of `WF`).  `float` (binary32) leaves and arrays
